@@ -261,7 +261,14 @@ class SourceFile:
                     continue
                 if kw == 'impl':
                     hdr = norm_ws(it.header)
-                    if re.fullmatch(rest, hdr[len('impl'):].strip()) or re.fullmatch(rest, hdr):
+                    h2 = hdr[len('impl'):].strip()
+                    ok = (h2 == rest)
+                    if not ok:
+                        try:
+                            ok = bool(re.fullmatch(rest, h2))
+                        except re.error:
+                            ok = False
+                    if ok:
                         cands.append(it)
                 elif it.name == rest:
                     cands.append(it)
@@ -426,6 +433,26 @@ class Extracted:
         if n:
             self.text = ''.join(out)
             self.log('X4', 'replaced %d logging macro call(s) by ()' % n)
+        return self
+
+    def replace_macro(self, name, repl, rule='X4'):
+        """replace every invocation `name!(...)` (optionally path-qualified `a::name!`) by `repl`"""
+        t = self.text
+        mask = code_mask(t)
+        pat = re.compile(r'\b(?:[a-z_]+::)?%s!\s*\(' % re.escape(name))
+        out, i, n = [], 0, 0
+        for m in pat.finditer(t):
+            if m.start() < i or not mask[m.start()]:
+                continue
+            close = match_delim(t, mask, m.end() - 1)
+            out.append(t[i:m.start()])
+            out.append(repl)
+            i = close + 1
+            n += 1
+        out.append(t[i:])
+        if n:
+            self.text = ''.join(out)
+            self.log(rule, 'replaced %d `%s!(..)` by `%s` (message text dropped)' % (n, name, repl))
         return self
 
     # X5 / X9 generic logged rewrite --------------------------------------------------------------
